@@ -199,6 +199,11 @@ pub fn run_part1(run: &Run, frac: f64) -> u64 {
         let lvl = if th && d.n <= 4 { 1 } else { 0 };
         fam.push((n, d, lvl));
     }
+    // the repository's table (knots and links) with <= 6 (thorough 8) crossings, and the mirrors
+    for (n, d) in table_family(if th { 8 } else { 6 }, true) {
+        fam.push((format!("{n}:mirror"), d.mirror(), 0));
+        fam.push((n, d, 0));
+    }
     run.add("diagrams", fam.len() as u64);
     run.par_for(fam.len(), |i| {
         if run.over_budget_frac(frac) {
